@@ -256,6 +256,41 @@ def cases(draw):
     return {'cfg': cfgp, 'third': third, 'pre': pre, 'ops': draw(ops_strategy(third))}
 
 
+def directed_cases():
+    """expiry notices around an IKE_SA rekey: the CHILD_SAs change owner while the replaced IKE_SA is still in the table"""
+    out = []
+    est = [['acquire', 'a', 0, 1]]
+    for x, y in (('a', 'b'), ('b', 'a')):
+        for first_expire in ([['expire_any', x, 0, False], ['expire_any', y, 0, False]] + [['deliver', 0]] * 4,   # refused rekeys
+                             [['expire_any', x, 0, False]] + [['deliver', 0]] * 4,                                   # a completed one
+                             []):
+            for rekeyer in (x, y):
+                for n_del in (1, 2, 3):
+                    for hard in (False, True):
+                        for outbound in (False, True):
+                            ops = list(first_expire) + [['rekey_ike', rekeyer, 0]] + [['deliver', 0]] * n_del + \
+                                  [['expire_any', x, 0, hard, outbound], ['status', x]]
+                            out.append({'cfg': {'dh': '19'}, 'third': False, 'pre': est, 'ops': ops})
+    return out
+
+
+def directed_worker(chunk):
+    st_ = Stats()
+    for case in chunk:
+        fails = body(case, st_)
+        st_.klass('directed:expire-around-ike-rekey')
+        for f in fails:
+            if common.KNOWN.is_open('C16', f.sig):
+                st_.excluded[f.sig] += 1
+            elif not any(g.sig == f.sig for g in st_.failures):
+                st_.failures.append(f)
+    return st_
+
+
+def _dispatch(t):
+    return directed_worker(t[1]) if t[0] == 'd' else worker(t[1])
+
+
 def worker(task):
     n, seed = task
     ctx = common.Ctx('C16', 'quick', seed)
@@ -266,8 +301,11 @@ def worker(task):
 
 def run(ctx):
     n = 120 if ctx.quick else 5000
-    for st_ in pmap(worker, [(n, ctx.seed * 64 + i) for i in range(common.NCPU)]):
+    dc = directed_cases()
+    tasks = [('d', dc[i::common.NCPU]) for i in range(common.NCPU)] + [('w', (n, ctx.seed * 64 + i)) for i in range(common.NCPU)]
+    for st_ in pmap(_dispatch, tasks):
         ctx.stats.merge(st_)
+    ctx.extra['directed'] = f'{len(dc)} directed cases: soft / hard expiry (by inbound or outbound SPI) at every step of an IKE_SA rekey, after refused or completed CHILD_SA rekeys'
     if not ctx.quick:
         import sys as _sys
         common.hyp_fuzz_stage(ctx, _sys.modules[__name__], 'cases()')
